@@ -17,6 +17,8 @@ def _zs(interp, vals):
             zs.extend(_zs(interp, v.items))
         elif v.kind == "opt":
             zs.extend([v.isnone] + _zs(interp, [v.inner]))
+        elif v.kind == "ref" and v.rkind == "obj":
+            zs.append(z3.IntVal(-1000 - v.addr))       # a concrete-heap object: its identity
         elif getattr(v, "z", None) is not None:
             zs.append(v.z)
         else:
